@@ -9,7 +9,7 @@ cd "$WT" && git checkout -q -- . && git apply "$P" || { echo APPLYFAIL; exit 2; 
 cd "$ROOT"
 BAK=$(mktemp -d); cp lean/FastPasta/Spec/*SrcGen.lean "$BAK"/
 fail=0
-for pair in words:WordsSrcGen rdh:RdhSrcGen payload:PayloadSrcGen stateful:StateSrcGen trigstats:TrigSrcGen lanechecks:LaneSrcGen alpidestats:AlpStatsSrcGen scanner:ScanSrcGen linkval:LinkSrcGen linkrdh:LinkRdhSrcGen customstats:CustomSrcGen; do
+for pair in words:WordsSrcGen rdh:RdhSrcGen payload:PayloadSrcGen stateful:StateSrcGen trigstats:TrigSrcGen lanechecks:LaneSrcGen alpidestats:AlpStatsSrcGen scanner:ScanSrcGen linkval:LinkSrcGen linkrdh:LinkRdhSrcGen customstats:CustomSrcGen readerstats:ReaderStatsSrcGen; do
   sp=${pair%%:*}; G=${pair##*:}
   VERIF_REPO="$WT" python3 tools/rs2lean.py tools/rsspec/$sp.json lean/FastPasta/Spec/$G.lean > "$BAK"/tr.log 2>&1 || { echo "TRANSLATE-FAIL($sp): $(head -c 200 "$BAK"/tr.log)"; fail=1; }
 done
